@@ -30,7 +30,7 @@ enum { P_PATH_PROCESS, P_PATH_EVAL, P_PATH_PUTCHAR_IRQ, P_PATH_PUTCHAR_THR, P_FO
        P_QUOTED, P_LINE_79, P_EVAL_LONGER_THAN_RING, P_EVAL_MULTI_LINE, P_YIELDING_CMD, P_SLEEPING_CMD,
        P_INPUT_WHILE_CMD_RUNS, P_REGISTER_REFUSED, P_UNKNOWN_LINE, P_EMPTY_LINE, P_ARGS_JUDGED,
        P_LEADING_SPACE_LINE, P_FAILING_CMD, P_BUILTIN, P_CMD_DIRTIED_SCRATCH,
-       P_FINALE_QUEUE_EXACTLY_FULL, P_CONSOLE_IRQ_NESTED_IN_TICK };
+       P_FINALE_QUEUE_EXACTLY_FULL, P_CONSOLE_IRQ_NESTED_IN_TICK, P_SECOND_CONSOLE };
 static const char *const probe_names[] = {
 	"path_console_process", "path_console_eval", "path_putchar_irq", "path_putchar_thread",
 	"line_with_exactly_four_arguments", "tokeniser_stopped_at_four_arguments", "quoted_argument",
@@ -39,7 +39,8 @@ static const char *const probe_names[] = {
 	"unknown_command_line", "empty_line", "arguments_judged", "line_with_leading_space_or_quote",
 	"failing_command_ran", "builtin_command_line", "command_stored_state_in_scratch",
 	"last_newline_followed_by_exactly_full_wakeup_queue",
-	"console_interrupt_nested_inside_another_source", NULL };
+	"console_interrupt_nested_inside_another_source",
+	"second_console_instance_evaluating_concurrently", NULL };
 
 /* ---- commands ---------------------------------------------------------------- */
 
@@ -70,9 +71,21 @@ static uint32_t cmd_due;
 static bool use_fibre_timeout;
 static bool cmd_running;
 
+/* a second, independent console instance (console_t is an instance type): what its commands saw */
+static console_t *con2;
+static char by_log[2048];
+static int by_len;
+
 static pt_state_t cmd_fn(console_t *c)
 {
 	tcmd_t *t = containerof(c->cmd, tcmd_t, cmd);
+	if (c == con2) {
+		by_len += snprintf(by_log + by_len, sizeof(by_log) - by_len, "%s", t->cmd.name);
+		for (int i = 1; i < c->argc && i < 4; i++)
+			by_len += snprintf(by_log + by_len, sizeof(by_log) - by_len, " %s", c->argv[i]);
+		by_len += snprintf(by_log + by_len, sizeof(by_log) - by_len, "\n");
+		return PT_EXITED;
+	}
 	PT_BEGIN(&c->pt);
 	/* capture what was dispatched, before anything else can touch the line buffer */
 	if (nrec >= MAXREC)
@@ -609,19 +622,80 @@ static int inject_fibre(fibre_t *f)
 	PT_END();
 }
 
+/* the same, for the second console */
+static struct {
+	fibre_t fibre;
+	pt_t pt;
+	char *str;		/* exact-size heap block: reading past the terminator faults */
+	bool active, done;
+} inj2;
+
+static int inject2_fibre(fibre_t *f)
+{
+	PT_BEGIN_FIBRE(f);
+	PT_SPAWN(&inj2.pt, console_eval(&inj2.pt, con2, inj2.str));
+	inj2.done = true;
+	PT_END();
+}
+
+/* 1-4 simple lines naming a registered run-to-completion command; the text is its own expectation */
+static bool start_second_console(void)
+{
+	int usable[NCMDS], nu = 0;
+	for (int i = 0; i < NCMDS; i++)
+		if (cmds[i].registered && (cmds[i].kind == K_FILL || cmds[i].kind == K_CAP))
+			usable[nu++] = i;
+	if (!nu)
+		return false;
+	static FILE *null_out;
+	if (!null_out)
+		null_out = fopen("/dev/null", "w");
+	con2 = sim_alloc(sizeof(console_t));
+	sim_budget(1000000);
+	console_init(con2, null_out);
+	int n = 0, lines = 1 + sim_choose(4);
+	char text[400];
+	for (int l = 0; l < lines; l++) {
+		n += snprintf(text + n, sizeof(text) - n, "%s", names[usable[sim_choose(nu)]]);
+		int words = sim_choose(4);
+		for (int w = 0; w < words; w++) {
+			int wl = 1 + sim_choose(sim_choose(3) ? 6 : 24);
+			text[n++] = ' ';
+			for (int k = 0; k < wl; k++)
+				text[n++] = 'a' + (l * 7 + w * 3 + k) % 26;
+		}
+		text[n++] = '\n';
+		text[n] = 0;
+	}
+	inj2.str = sim_alloc(n + 1);
+	memcpy(inj2.str, text, n + 1);
+	by_len = 0;
+	by_log[0] = 0;
+	inj2.done = false;
+	inj2.active = true;
+	fibre_init(&inj2.fibre, inject2_fibre);
+	fibre_run(&inj2.fibre);
+	sim_probe(P_SECOND_CONSOLE);
+	sim_evs("second_console", inj2.str);
+	return true;
+}
+
 static void path_eval(void)
 {
 	sim_probe(P_PATH_EVAL);
 	use_fibre_timeout = true;
 	/* split the stream into 1..3 injected strings at line boundaries */
 	int pos = 0;
+	inj2.active = false;
+	con2 = NULL;
+	bool want_second = sim_chance(1, 3);
 	while (pos < stream_len) {
 		int end = pos;
 		int lines = 1 + sim_choose(4), seen = 0;
 		while (end < stream_len && seen < lines)
 			if (stream[end++] == '\n')
 				seen++;
-		static char piece[1024];
+		char *piece = sim_alloc(end - pos + 1);	/* exact size: reading past the terminator faults */
 		memcpy(piece, stream + pos, end - pos);
 		piece[end - pos] = 0;
 		/* console_eval takes a C string: characters it cannot carry end the piece */
@@ -635,14 +709,18 @@ static void path_eval(void)
 		inj.done = false;
 		fibre_init(&inj.fibre, inject_fibre);
 		fibre_run(&inj.fibre);
+		/* sometimes another console instance is fed at the same time, before or after this one starts */
+		if (want_second && !inj2.active && (sim_choose(2) || end == stream_len))
+			start_second_console();
 		int passes = 0;
-		int budget = 40 * (end - pos) + 400;
+		int budget = 40 * (end - pos) + 400 + (inj2.active ? 40 * 400 : 0);
 		while (passes++ < budget) {
 			sim_budget(4000000);
 			uint32_t wake = fibre_scheduler_next(now);
 			sim_check_sanitizer();
 			if (wake != now) {
-				if (inj.done && !cmd_running && wake == now + FIBRE_UNBOUNDED_SLEEP)
+				if (inj.done && !cmd_running && wake == now + FIBRE_UNBOUNDED_SLEEP &&
+				    (!inj2.active || inj2.done))
 					break;
 				uint32_t adv = wake - now;
 				if (adv > 1000)
@@ -663,6 +741,15 @@ static void path_eval(void)
 		if (!inj.done)
 			sim_fail(NULL, "EVAL_STUCK", "console_eval of a %d-character string (%d line(s)) had not completed after %d scheduler passes",
 				 end - pos, seen, passes - 1);
+		if (inj2.active) {
+			if (!inj2.done)
+				sim_fail(NULL, "EVAL_STUCK:second_console", "console_eval on a second console instance had not completed after %d scheduler passes", passes - 1);
+			if (strcmp(by_log, inj2.str))
+				sim_fail(NULL, "SECOND_CONSOLE", "a second console instance was given \"%.200s\" while the first was evaluating; its commands saw \"%.200s\"",
+					 inj2.str, by_log);
+			inj2.active = false;
+			want_second = false;
+		}
 		pos = end;
 	}
 	compare_records("after console_eval of the whole stream");
@@ -672,6 +759,7 @@ static void path_eval(void)
 static void run(void)
 {
 	reset_model();
+	con2 = NULL;
 	now = sim_choose(2) ? 0xfffffff0u : 1000;
 	sim_clock = now;
 	setup_commands();
@@ -902,6 +990,7 @@ static void run(void)
 {
 	bool races = sim_prop_is("C07");
 	reset_model();
+	con2 = NULL;
 	mode = races ? M_THR : sim_choose(3) ? M_IRQ : M_THR;
 	now = sim_choose(2) ? 0xfffffff0u : 1000;
 	sim_clock = now;
